@@ -242,8 +242,26 @@ impl<'a> MslV<'a> {
         }
         let variant = MBUILTINS.iter().find(|b| b.0 == lib)?.1;
         let mut vals = Vec::new();
-        for a in args {
-            vals.push(self.eval(a, fr, mem, cx, depth)?);
+        if variant == "Select" {
+            // `select(c, t, f)` is emitted as `metal::select(f, t, c)`: the operands are written in the REVERSE order.  This reading
+            // evaluates arguments left to right (as the typed semantics does; C++ leaves the order unspecified), so operands with
+            // effects run in the other order than in the source; the alternative reading runs them in the source's order
+            let before = mem.cells.clone();
+            let order: Vec<usize> = if self.hlsl_literals { (0..args.len()).rev().collect() } else { (0..args.len()).collect() };
+            let mut slots: Vec<Option<VV>> = vec![None; args.len()];
+            for i in order {
+                slots[i] = Some(self.eval(&args[i], fr, mem, cx, depth)?);
+            }
+            if mem.cells != before {
+                hazard(H_SELECT_ORDER);
+            }
+            for v in slots {
+                vals.push(v?);
+            }
+        } else {
+            for a in args {
+                vals.push(self.eval(a, fr, mem, cx, depth)?);
+            }
         }
         if vals.iter().any(|v| v.comps().map(|c| c.contains(&V::Void)).unwrap_or(true)) {
             return other(format!("argument of metal::{} is an uninitialised value", lib));
